@@ -30,7 +30,7 @@ CHECKS = {
  "C09": dict(
    level="exploration",
    technique="metamorphic testing with the reference interpreter: perturb the value stored by each flagged assignment (or parameter) and compare effect traces, on generated programs x valuations x replacement values (proptest tapes, shrinking)",
-   text="For every CS0006/CS0007/CS0008 finding about a local or parameter of a generated program (locals, parameters, input/output signals, loops, branches, asserts, returns) the interpreter is re-run with the flagged value replaced, for 8 valuations x 3 replacement values; signal assignments, constraints mentioning signals, asserts, return value, array dimensions and branch decisions must be identical.",
+   text="For every CS0006/CS0007/CS0008 finding about a local or parameter of a generated program (locals, parameters, input/output signals, loops, branches, asserts, returns) the interpreter is re-run with the flagged value replaced, for 8 valuations x 3 replacement values; signal assignments, constraints mentioning signals, asserts, return value, array dimensions and branch decisions must be identical. The generator includes locals whose only use is the position at which a local array is read.",
    note="Pairs with a runtime error on either side are discarded and counted. One-sided: true claims never fail.",
    design="DESIGN.md §3 C09"),
  "C10": dict(
@@ -95,8 +95,8 @@ CHECKS = {
    design="DESIGN.md §3 C04"),
  "C17": dict(
    level="exploration",
-   technique="metamorphic testing of the real binary on generated projects: repeat (fresh random hasher per process), reorder files and definitions, insert unreferenced definitions; findings compared as multisets from SARIF (proptest tapes, shrinking)",
-   text="For generated multi-file projects: repeated runs must give identical findings including positions; reversing the order of the named files must give identical findings; permuting the definitions of every file must give the same findings modulo positions (rule id, level, normalised message, normalised text under every label); inserting an unreferenced template and function (valid, or one the desugarer must reject) must leave all other findings unchanged while the inserted definitions get their own. Projects in which two named files define the same name and three hand-written files exercising the special constructs of every analysis pass must display identical findings in 8-60 repeated runs.",
+   technique="metamorphic testing of the real binary on generated projects: repeat (fresh random hasher per process), reorder files and definitions, insert unreferenced definitions, repeat curve-dependent programs of the C11 generator; findings compared as multisets from SARIF (proptest tapes, shrinking)",
+   text="For generated multi-file projects: repeated runs must give identical findings including positions; reversing the order of the named files must give identical findings; permuting the definitions of every file must give the same findings modulo positions (rule id, level, normalised message, normalised text under every label); inserting an unreferenced template and function (valid, or one the desugarer must reject) must leave all other findings unchanged while the inserted definitions get their own. Projects in which two named files define the same name and three hand-written files exercising the special constructs of every analysis pass must display identical findings in 8-60 repeated runs. Programs of the C11 generator (range checks, comparisons with and without range-checked inputs, marked template names in one template) must display identical findings in 8 (20) runs under their --curve argument.",
    note="Hash-map iteration orders are sampled by repeated processes (5 quick / 20 thorough per project), not enumerated.",
    design="DESIGN.md §3 C17"),
  "C18": dict(
@@ -114,7 +114,7 @@ CHECKS = {
  "C05": dict(
    level="exploration",
    technique="differential testing of the comment stripper against a reference lexer (exhaustive over all strings <= 8 symbols of a 7-symbol alphabet and <= 7 symbols with a bare carriage return added, plus generated fragment strings) and metamorphic testing of the whole binary (blank comments / remove comments / inject unterminated opener) on generated programs",
-   text="(1) parser::preprocess (re-exported by the verif feature) must agree with a three-state reference lexer on Ok/Err, byte length, untouched code bytes and blanked comment bytes, for every string up to length 8 (quick) / 10 (thorough) over {/,*,newline,a,quote,space,é} and for generated long strings. (2) Generated programs with comments of every listed shape between tokens are run through the real binary: findings are identical after blanking each comment in place (line:col included), identical modulo positions after removing them, and the same definitions are analysed. (3) An unterminated opener injected at a random token boundary must yield an error diagnostic and a non-zero exit.",
+   text="(1) parser::preprocess (re-exported by the verif feature) must agree with a three-state reference lexer on Ok/Err, byte length, untouched code bytes and blanked comment bytes, for every string up to length 8 (quick) / 10 (thorough) over {/,*,newline,a,quote,space,é} and for generated long strings. (2) Generated programs with comments between tokens (a vocabulary of shapes including backslashes at the end of a line comment, and generated content over 16 characters) are run through the real binary: findings are identical after blanking each comment in place (line:col included), identical modulo positions after removing them, and the same definitions are analysed. (3) An unterminated opener injected at a random token boundary must yield an error diagnostic and a non-zero exit.",
    note="String literals are not special to the comment lexer (as in Circom's own preprocessor). Blanking replaces each comment character by one blank so displayed columns (counted in characters) are comparable. Crashing runs are skipped here and judged by C01.",
    design="DESIGN.md §3 C05"),
  "C20": dict(
